@@ -19,6 +19,7 @@ type Ctx struct {
 	Rng       *rand.Rand
 	DriverBin string
 	Scratch   string
+	PendingLines []string
 	ReplayDir string
 	Start     time.Time
 
@@ -100,7 +101,18 @@ func (c *Ctx) Unexplained(r *Replay, broken string) {
 	r.Broken = broken
 	path := c.writeReplay(r)
 	c.CorrBroken = append(c.CorrBroken, broken)
-	fmt.Printf("VIOLATION property=%s replay=%s no-failing-input-found\n", c.Prop, path)
+	// printed at the end of the run, and only if the search did not come up with a concrete failing input
+	c.PendingLines = append(c.PendingLines, fmt.Sprintf("VIOLATION property=%s replay=%s no-failing-input-found", c.Prop, path))
+}
+
+// Flush prints what was deferred: a broken correspondence is reported as such only when no concrete violation was found.
+func (c *Ctx) Flush() {
+	if c.Violations == 0 {
+		for _, l := range c.PendingLines {
+			fmt.Println(l)
+		}
+	}
+	c.PendingLines = nil
 }
 
 // WriteEvidence writes the correspondence part of the evidence; the check script merges the
